@@ -7,7 +7,7 @@ from typing import List, Optional, Tuple
 from ..callgraph import callgraph
 from ..cfg import CFG, Node, cfg_of, edge_dominates, edges_dominate, must_reach, node_calls, node_dominates, nodes_dominate, path_to, reach
 from ..defuse import def_value, defs_of, derives_from, names_in, reaching_defs, resolve_alias
-from ..esp import STATE, run_function, valuations
+from ..esp import UNKNOWN, STATE, run_function, valuations
 from ..model import AnalysisError, Func, Repo, ancestors, attr_chain, body_nodes, norm, short
 
 CATS = ("create", "fix", "trim", "update")
@@ -122,8 +122,10 @@ def check(repo: Repo, rep, tier):
     session_gate(repo, rep)
     configure(repo, rep)
     xfail(repo, rep)
+    xfail_marker(repo, rep)
     inactive(repo, rep)
     driver_filter(repo, rep)
+    flags_not_approval(repo, rep)
 
 
 WRITER_TABLE = {
@@ -706,7 +708,7 @@ def inactive(repo: Repo, rep):
         "in snapshot(): on the `not state().active` branch every path returns the argument itself or raises, and nothing is stored before",
     )
     f = repo.func("_inline_snapshot.py::snapshot")
-    v = next(valuations())
+    v = UNKNOWN
     outs, eng = run_function(repo, f, v)
     act = ("attr", STATE, "active")
     pname = f.params[0] if f.params else None
@@ -767,3 +769,99 @@ def driver_filter(repo: Repo, rep):
             rep.ok("R-DRIVER-FILTER", f, n.ast, "update_flags = Flags(parsed --inline-snapshot)")
         else:
             rep.violation("R-DRIVER-FILTER", f, n.ast, f"run_inline's update_flags `{short(v, 40)}` is not exactly the parsed --inline-snapshot categories")
+
+
+def xfail_marker(repo: Repo, rep):
+    rep.rule(
+        "R-XFAIL-MARKER",
+        "is_xfail decides from a marker view that includes markers inherited from the class / module (request.keywords, get_closest_marker, iter_markers), "
+        "never from node.own_markers alone; it answers False only when no xfail marker is present or its first argument == False",
+    )
+    f = repo.func("pytest_plugin.py::is_xfail")
+    attrs = {x.attr for x in body_nodes(f.node) if isinstance(x, ast.Attribute)}
+    inherited = attrs & {"keywords", "get_closest_marker", "iter_markers"}
+    if "own_markers" in attrs and not inherited:
+        rep.violation("R-XFAIL-MARKER", f, f.node, "is_xfail looks only at node.own_markers: an xfail marker inherited from the class or from module-level pytestmark is not seen, so such tests run active and their files are rewritten", construct="own_markers")
+    elif inherited:
+        rep.ok("R-XFAIL-MARKER", f, f.node, f"uses {sorted(inherited)}")
+    else:
+        rep.undecided("R-XFAIL-MARKER", "is_xfail uses none of the known marker views")
+        return
+    # every `return False` is under 'marker absent' or 'first argument == False'
+    cfg = cfg_of(f)
+    for r in cfg.stmts(ast.Return):
+        v = r.ast.value
+        if isinstance(v, ast.Constant) and v.value is False:
+            doms = [(c, l) for c, l in __import__("sa.cfg", fromlist=["dominating_edges"]).dominating_edges(cfg, r) if c.kind == "cond"]
+            ok = False
+            for c, l in doms:
+                t = norm(c.ast)
+                if "xfail" in t and ((" in " in t and l == "F") or (" not in " in t and l == "T")):
+                    ok = True
+                if "== False" in t and l == "T" or "is False" in t and l == "T":
+                    ok = True
+                if t.startswith("not ") or "is None" in t:
+                    ok = ok or l == "T"
+            if not doms:
+                # a fall-through `return False` after a loop over the markers is the 'absent' case
+                ok = True
+            if ok:
+                rep.ok("R-XFAIL-MARKER", f, r.ast, "returns False only for an absent marker or condition False")
+            else:
+                rep.violation("R-XFAIL-MARKER", f, r.ast, "is_xfail answers False on a path where an xfail marker without a False condition is present", construct="return-false")
+
+
+def flags_not_approval(repo: Repo, rep):
+    rep.rule(
+        "R-FLAGS-NOT-APPROVAL",
+        "state().update_flags is not an approval (review mode sets it to every category before any question is asked): outside the comparison logic, no "
+        "function lets a condition on state().update_flags decide whether or how a file-system write happens (a writer-reaching call reachable from such a condition)",
+    )
+    cg = callgraph(repo)
+    n = 0
+    for f in repo.pkg_funcs():
+        if f.module.rel.startswith(("testing/", "_snapshot/")):
+            continue
+        prim = [c for c, kind, _ in cg.prims.get(f.key, []) if kind == "FS_WRITE"]
+        wcalls = []
+        for c, tg, how in cg.edges.get(f.key, []):
+            for t in tg:
+                if t.key in WRITER_TABLE and not t.key.startswith("testing/") or any(e[0].key in WRITER_TABLE and not e[0].key.startswith("testing/") for e in cg.effects_of(t, ("FS_WRITE",))):
+                    wcalls.append(c)
+                    break
+        if not (prim or wcalls):
+            continue
+        cfg = cfg_of(f)
+        uf_conds = []
+        for c in cfg.conds():
+            e = c.ast
+            hit = False
+            for x in ast.walk(e):
+                if isinstance(x, ast.Attribute) and x.attr in CATS:
+                    base = x.value
+                    if isinstance(base, ast.Name):
+                        base = resolve_alias(cfg, c, base)
+                    if isinstance(base, ast.Attribute) and base.attr == "update_flags":
+                        hit = True
+                if isinstance(x, ast.Call) and norm(x.func) == "getattr" and x.args and "update_flags" in norm(x.args[0]):
+                    hit = True
+            if hit:
+                uf_conds.append(c)
+        n += 1
+        bad = False
+        for c in uf_conds:
+            r = reach(cfg, [b for b, _ in c.succ])
+            for w in wcalls + prim:
+                nn = cfg.nodes_containing(w)
+                if nn and nn[0] in r:
+                    rep.violation(
+                        "R-FLAGS-NOT-APPROVAL",
+                        f,
+                        c.ast,
+                        f"{f.qualname}: the write `{short(w, 50)}` depends on `{short(c.ast, 40)}`; update_flags is set to all categories in review mode (and by create for a fix change), so this is not the user's approval",
+                        construct=f"{norm(c.ast)}->{norm(w.func)}",
+                    )
+                    bad = True
+        if not bad:
+            rep.ok("R-FLAGS-NOT-APPROVAL", f, f.node, f"{len(wcalls) + len(prim)} write(s), none decided by update_flags")
+    rep.floor("R-FLAGS-NOT-APPROVAL", "functions that write", n, 5)
